@@ -309,7 +309,14 @@ def build_and_link(case, d, bindir, wild, dump=True):
             rc2, o2, e2 = lu.run(["gcc", "-o", out, out + ".o"], cwd=d)
             if rc2 != 0:
                 return -998, "", "final link of the -r output with GNU ld failed: " + e2[-600:]
-            return lu.run_native(out)
+            r1 = lu.run_native(out)
+            if r1[0] != 0:
+                # the final link is GNU ld's: it may legitimately transform the inputs (e.g. de-duplicate the constants of an
+                # SHF_MERGE section). Only a difference from the same program linked WITHOUT wild's -r step counts.
+                rc3, o3, e3 = lu.run(["gcc", "-o", out + ".direct", asm_obj, chk], cwd=d)
+                if rc3 == 0 and lu.run_native(out + ".direct")[0] == r1[0]:
+                    return 0, "", "same exit status without the -r step: GNU ld's own transformation of the generated sections"
+            return r1
         res["run"] = run_reloc
         return res
     if kind.startswith("libc-shared"):
